@@ -139,3 +139,84 @@ Proof. intros H. unfold agg_value, agg_arg. rewrite H. destruct arg; reflexivity
 
 Lemma agg_size_ones (l : list (list val)) : agg_fn fl_pandas "size" (map (fun _ => vone) l) = agg_fn fl_pandas "_size" (map (fun _ => VBool true) l).
 Proof. destruct l; simpl; [reflexivity|]. rewrite !map_length. reflexivity. Qed.
+
+Lemma map_const_len {A B C} (v : C) (l : list A) (m : list B) : List.length l = List.length m -> map (fun _ => v) l = map (fun _ => v) m.
+Proof. revert m. induction l as [|a l IH]; intros [|b m] L; simpl in *; try discriminate; [reflexivity|]. f_equal. apply IH. lia. Qed.
+
+(* the column an aggregate reads, as a function of the ORIGINAL rows; and the aggregate name after the name mapping *)
+Lemma pagg_vals t res2 temps T e fn arg :
+  extends_by t res2 -> const_col res2 T vone -> (forall v name, In (v, name) temps -> const_col res2 name v) ->
+  agg_shape e = Some (fn, arg) -> agg_ok (cols t) e ->
+  forall vals fn',
+    (match arg with
+     | Some (WCol c) => vs <- pd_col c res2 ;; Some (vs, transform_op_map fn)
+     | Some (WConst v) => name <- const_lookup v temps ;; vs <- pd_col name res2 ;; Some (vs, transform_op_map fn)
+     | None => z <- strip_underscore fn ;; vs <- pd_col T res2 ;; Some (vs, transform_op_map z)
+     end) = Some (vals, fn') ->
+    exists V, vals = map V (rows t) /\
+              (mem fn' agg_names = true -> forall grp, agg_fn fl_pandas fn' (map V grp) = agg_value fl_pandas (cols t) grp e).
+Proof.
+  intros E CT CC Sh Ok vals fn' H. unfold agg_ok in Ok. rewrite Sh in Ok.
+  destruct e as [c0|v0|o args]; try discriminate. destruct args as [|a [|b rest]]; try discriminate.
+  - (* fn() *)
+    inversion Sh; subst fn arg. subst o. cbn [strip_underscore] in H. cbn in H.
+    destruct (pd_col T res2) as [vs|] eqn:Ec; cbn [obind] in H; [|discriminate]. inversion H; subst vals fn'. clear H.
+    apply pd_col_inv in Ec. destruct Ec as [-> _]. rewrite (const_col_getcol _ _ _ CT).
+    exists (fun _ => vone). split; [apply map_const_len, extends_rows_len, E|].
+    intros _ grp. unfold agg_value. cbn [agg_parts]. apply agg_size_ones.
+  - destruct a as [c|v|o' args']; try discriminate; inversion Sh; subst fn arg.
+    + (* fn(column) *)
+      destruct (pd_col c res2) as [vs|] eqn:Ec; cbn [obind] in H; [|discriminate]. inversion H; subst vals fn'. clear H.
+      apply pd_col_inv in Ec. destruct Ec as [-> _]. rewrite (extends_getcol _ _ _ E Ok).
+      exists (fun r => get (cols t) r c). split; [reflexivity|]. intros M grp. rewrite (agg_names_map _ M). reflexivity.
+    + (* fn(constant) *)
+      destruct (const_lookup v temps) as [name|] eqn:El; cbn [obind] in H; [|discriminate].
+      destruct (pd_col name res2) as [vs|] eqn:Ec; cbn [obind] in H; [|discriminate]. inversion H; subst vals fn'. clear H.
+      apply pd_col_inv in Ec. destruct Ec as [-> _]. rewrite (const_col_getcol _ _ _ (CC _ _ (const_lookup_In _ _ _ El))).
+      exists (fun _ => v). split; [apply map_const_len, extends_rows_len, E|]. intros M grp. rewrite (agg_names_map _ M). reflexivity.
+Qed.
+
+Lemma agg_shape_fst e fn arg : agg_shape e = Some (fn, arg) -> True.
+Proof. trivial. Qed.
+
+(* pagg: the value handed to columns_to_frame_ for one output *)
+Definition agg_groups (t : table) (gb : list string) (e : expr) (gk : list (list val)) : list val :=
+  map (fun key => agg_value fl_pandas (cols t) (filter (fun r => keys_eqv key (key_of (cols t) gb r)) (rows t)) e) gk.
+
+Lemma pagg_spec t gb res2 temps T rkeys ke k x :
+  extends_by t res2 -> const_col res2 T vone -> (forall v name, In (v, name) temps -> const_col res2 name v) ->
+  agg_ok (cols t) (snd ke) ->
+  (rkeys = None \/ rkeys = Some (map (key_of (cols t) gb) (rows t))) ->
+  pagg rkeys temps T res2 ke = Some (k, x) ->
+  k = fst ke /\
+  x = match rkeys with
+      | None => CScalar (agg_value fl_pandas (cols t) (rows t) (snd ke))
+      | Some rk => CGrouped (mkgs (pd_group_keys rk) (agg_groups t gb (snd ke) (pd_group_keys rk)))
+      end.
+Proof.
+  intros E CT CC Ok Rk. unfold pagg. destruct (agg_shape (snd ke)) as [[fn arg]|] eqn:Sh; [|discriminate].
+  pose proof (pagg_vals t res2 temps T (snd ke) fn arg E CT CC Sh Ok) as PV.
+  assert (forall vals fn', agg_on rkeys vals fn' = Some x -> (exists V, vals = map V (rows t) /\
+             (mem fn' agg_names = true -> forall grp, agg_fn fl_pandas fn' (map V grp) = agg_value fl_pandas (cols t) grp (snd ke))) ->
+          x = match rkeys with
+              | None => CScalar (agg_value fl_pandas (cols t) (rows t) (snd ke))
+              | Some rk => CGrouped (mkgs (pd_group_keys rk) (agg_groups t gb (snd ke) (pd_group_keys rk)))
+              end) as Fin.
+  { intros vals fn' Ha [V [-> HV]]. destruct Rk as [->| ->]; cbn [agg_on] in Ha.
+    - unfold pd_series_agg in Ha. destruct (mem fn' agg_names) eqn:M; [|discriminate]. inversion Ha. f_equal. apply HV. reflexivity.
+    - unfold pd_grouped_agg in Ha. rewrite !map_length, Nat.eqb_refl in Ha. destruct (mem fn' agg_names) eqn:M; [|discriminate].
+      cbn [andb option_map] in Ha. inversion Ha. f_equal. f_equal. unfold agg_groups. apply map_ext. intros key.
+      rewrite filter_combine_keys. apply HV. reflexivity. }
+  destruct arg as [[c|v]|].
+  - destruct (pd_col c res2) as [vals|] eqn:Ec; cbn [obind]; [|discriminate].
+    destruct (agg_on rkeys vals (transform_op_map fn)) as [x'|] eqn:Ea; cbn [obind]; [|discriminate].
+    intros H. inversion H; subst. split; [reflexivity|]. apply (Fin _ _ Ea). apply PV. rewrite Ec. reflexivity.
+  - destruct (const_lookup v temps) as [name|] eqn:El; cbn [obind]; [|discriminate].
+    destruct (pd_col name res2) as [vals|] eqn:Ec; cbn [obind]; [|discriminate].
+    destruct (agg_on rkeys vals (transform_op_map fn)) as [x'|] eqn:Ea; cbn [obind]; [|discriminate].
+    intros H. inversion H; subst. split; [reflexivity|]. apply (Fin _ _ Ea). apply PV. rewrite El. cbn [obind]. rewrite Ec. reflexivity.
+  - destruct (strip_underscore fn) as [z|] eqn:Ez; cbn [obind]; [|discriminate].
+    destruct (pd_col T res2) as [vals|] eqn:Ec; cbn [obind]; [|discriminate].
+    destruct (agg_on rkeys vals (transform_op_map z)) as [x'|] eqn:Ea; cbn [obind]; [|discriminate].
+    intros H. inversion H; subst. split; [reflexivity|]. apply (Fin _ _ Ea). apply PV. rewrite Ez. cbn [obind]. rewrite Ec. reflexivity.
+Qed.
